@@ -2,7 +2,7 @@
    sumbool are mapped to OCaml's; Z, N, positive, nat stay Coq datatypes; no Extract Constant. *)
 From Coq Require Import Strings.String Floats.SpecFloat.
 Require Import Model.Base Model.Syntax Model.F64 Model.Lexer Model.Builder Model.Value Model.Context
-               Model.Builtins Model.Eval Model.Iter Model.Interface Model.Script Model.InterfaceGen.
+               Model.Builtins Model.Eval Model.Iter Model.Interface Model.Script Model.InterfaceGen Model.Display.
 Require Extraction.
 Require Import ExtrOcamlBasic.
 Extraction Language OCaml.
@@ -10,6 +10,7 @@ Extraction "model.ml"
   s2l tokenize str_to_partial_tokens tokens_to_operator_tree build_operator_tree
   f_of_bits bits_of_f parse_float
   run_script step run_entry_gen initial_ctx apply_libfn
+  value_fmt value_debug node_fmt error_fmt set_value eval_mut empty_hashmap
   iter_all iter_identifiers iter_variable_identifiers iter_read_variable_identifiers
   iter_write_variable_identifiers iter_function_identifiers rename_with
   ident_any ident_var ident_read ident_write ident_fn
